@@ -339,6 +339,18 @@ func (c16) RunCase(c *fw.Ctx, rng *fw.RNG, batch, i int) {
 			return nil
 		}, nil
 	}
+	plain := lsys // the harness's own reloads never go through a reifier
+	if rng.Chance(1, 4) {
+		// A reifier changes what Load *presents*, not what a block *is*: a transform across links re-stores
+		// blocks and must work on the raw block (FocusedTransform documents Fill-like loading).
+		c.Count("histories_with_node_reifier", 1)
+		lsys.NodeReifier = func(_ linking.LinkContext, n datamodel.Node, _ *linking.LinkSystem) (datamodel.Node, error) {
+			if n.Kind() == datamodel.Kind_Map || n.Kind() == datamodel.Kind_List {
+				return basicnode.NewString("reified view of a " + n.Kind().String()), nil
+			}
+			return n, nil
+		}
+	}
 	cfg := &traversal.Config{LinkSystem: lsys, LinkTargetNodePrototypeChooser: func(datamodel.Link, linking.LinkContext) (datamodel.NodePrototype, error) {
 		return basicnode.Prototype.Any, nil
 	}}
@@ -532,7 +544,7 @@ func (c16) RunCase(c *fw.Ctx, rng *fw.RNG, batch, i int) {
 		for k := range unavailable {
 			delete(unavailable, k)
 		}
-		c16Reload(c, lsys, st, out, wantRoot, step, 0)
+		c16Reload(c, plain, st, out, wantRoot, step, 0)
 		rootVal, rootNode = wantRoot, out
 	}
 	c.Seen(hh, nontrivial)
